@@ -370,9 +370,105 @@ def check_adjacent(sp, cname, cp):
     return v
 
 
+# ------------------------------------------------ line-level interleavings
+# The text helpers are pure functions of their arguments; two threads that
+# call them with different encodings get what they get alone -- checked with
+# EVERY LINE of pydiffx/utils/text.py as a scheduling point (one preemption;
+# two in the thorough tier).
+
+LINE_SEQS = [
+    [('nl', 'unix', 'latin-1'), ('nl', 'unix', 'UTF-16'),
+     ('guess', 'UTF-16'), ('nl', 'dos', 'U32')],
+    [('nl', 'dos', 'cp1252'), ('nl', 'unix', 'UTF-16'),
+     ('nl', 'unix', 'utf_8_sig'), ('guess', 'utf_16')],
+    [('nl', 'unix', 'utf-16'), ('nl', 'unix', 'utf-8'),
+     ('guess', 'utf-32'), ('nl', 'dos', 'UTF-32')],
+]
+
+
+def _line_body(seq):
+    def body(ctl):
+        from pydiffx.utils.text import strip_bom
+        out = []
+        for op in seq:
+            if op[0] == 'nl':
+                out.append(get_newline_for_type(op[1], encoding=op[2]))
+                out.append(strip_bom('x\n'.encode(op[2]), op[2]))
+            else:
+                data = spec.enc_nobom('a\r\nb\n', codecs.lookup(op[1]).name)
+                out.append(tuple(guess_line_endings(data, encoding=op[1])))
+        return out
+    return body
+
+
+def run_line_unit(unit, tier):
+    from mc import sched
+    acc = Acc()
+    _, ia, ib = unit
+    sa, sb = LINE_SEQS[ia], LINE_SEQS[ib]
+    want = [_line_body(sa)(None), _line_body(sb)(None)]
+
+    def make():
+        return [_line_body(sa), _line_body(sb)], None
+
+    def check(x, ctx):
+        v = []
+        for t in range(2):
+            if x.errors[t] is not None:
+                v.append(('interleaved-helper-raised:%s:%s'
+                          % (type(x.errors[t]).__name__,
+                             site_of(x.errors[t])), repr(x.errors[t])))
+            elif x.results[t] != want[t]:
+                bad = next(i for i, (a, b) in enumerate(
+                    zip(x.results[t], want[t])) if a != b)
+                v.append(('interleaved-helper-result-differs',
+                          'thread %d, result %d: %r, alone %r'
+                          % (t, bad, x.results[t][bad], want[t][bad])))
+        acc.evals += 1
+        acc.transitions += len(x.trace)
+        acc.validated += 1
+        acc.nontrivial += 1
+        acc.outcome('ok' if not v else 'violation')
+        return v
+    n, ntraces, viols, capped = sched.explore(
+        make, check, bound=1 if tier == 'quick' else 2,
+        trace_files=('pydiffx/utils/text.py',))
+    acc.states = ntraces
+    seen = set()
+    for trace, choices, (key, msg) in viols:
+        if key in seen:
+            continue
+        seen.add(key)
+        acc.violation(key, '%s\nsequences %r / %r' % (msg, sa, sb),
+                      {'kind': 'lines', 'seqs': [ia, ib],
+                       'choices': list(choices)})
+    acc.sample({'line_level_interleavings': n, 'sequences': [ia, ib]}, 1)
+    return acc
+
+
+def replay_lines(payload):
+    from mc import sched
+    ia, ib = payload['seqs']
+    sa, sb = LINE_SEQS[ia], LINE_SEQS[ib]
+    want = [_line_body(sa)(None), _line_body(sb)(None)]
+    x = sched.Execution([_line_body(sa), _line_body(sb)], payload['choices'],
+                        ('pydiffx/utils/text.py',)).run()
+    out = []
+    for t in range(2):
+        if x.errors[t] is not None:
+            out.append(('interleaved-helper-raised:%s:%s'
+                        % (type(x.errors[t]).__name__, site_of(x.errors[t])),
+                        repr(x.errors[t])))
+        elif x.results[t] != want[t]:
+            out.append(('interleaved-helper-result-differs', 'thread %d' % t))
+    return out
+
+
 def plan(tier):
     cat = catalogue()
     units = sorted(cat)
+    units += [('lines', a, b) for a in range(len(LINE_SEQS))
+              for b in range(a, len(LINE_SEQS))]
     units += [('adjacent', c) for c in WIDE if c in cat]
     units += [('threads', a, b) for a, b in [(0, 1), (2, 3), (1, 4)]]
     units += [('many', i) for i in range(len(many_files()))]
@@ -405,6 +501,8 @@ def plan(tier):
 
 def run_unit(cname, tier):
     acc = Acc()
+    if isinstance(cname, tuple) and cname[0] == 'lines':
+        return run_line_unit(cname, tier)
     if isinstance(cname, tuple) and cname[0] == 'threads':
         # two threads, each writing and reading its own file (different inherited encodings, same line_endings values), every
         # interleaving with <= 2 / 3 preemptions (mc/sched.py)
@@ -511,6 +609,8 @@ def replay(payload):
         viols = check_roundtrip(payload['sp'], payload['cname'],
                                 payload['le'], payload['indent'],
                                 payload['text'], payload['container'])
+    elif payload.get('kind') == 'lines':
+        viols = replay_lines(payload)
     elif payload.get('kind') == 'threads':
         from mc import wrgraph
         viols = wrgraph.replay_threads(payload)
